@@ -411,6 +411,54 @@ fn has_noncore_crossover(topo: &TopoSpec, path: &sciparse::path::ScionPath) -> b
     false
 }
 
+/// valley-free joinability straight from the topology: ancestors via child->parent links, core mesh, peering
+fn joinable(t: &TopoSpec, src: IsdAsn, dst: IsdAsn) -> bool {
+    let parents = |x: IsdAsn| -> Vec<IsdAsn> {
+        t.links.iter().filter(|l| l.up).filter_map(|l| match l.role {
+            ScionLinkType::Child if l.a == x => Some(l.b),
+            ScionLinkType::Parent if l.b == x => Some(l.a),
+            _ => None,
+        }).collect()
+    };
+    let anc = |x: IsdAsn| -> Vec<IsdAsn> {
+        let mut seen = vec![x];
+        let mut i = 0;
+        while i < seen.len() {
+            for p in parents(seen[i]) {
+                if !seen.contains(&p) {
+                    seen.push(p);
+                }
+            }
+            i += 1;
+        }
+        seen
+    };
+    let is_core = |x: IsdAsn| t.ases.iter().any(|a| a.ia == x && a.core);
+    let (u, d) = (anc(src), anc(dst));
+    if u.iter().any(|x| d.contains(x)) {
+        return true;
+    }
+    // core mesh reachability
+    let mut reach: Vec<IsdAsn> = u.iter().cloned().filter(|x| is_core(*x)).collect();
+    let mut i = 0;
+    while i < reach.len() {
+        for l in t.links.iter().filter(|l| l.up && l.role == ScionLinkType::Core) {
+            let n = if l.a == reach[i] { Some(l.b) } else if l.b == reach[i] { Some(l.a) } else { None };
+            if let Some(n) = n {
+                if !reach.contains(&n) {
+                    reach.push(n);
+                }
+            }
+        }
+        i += 1;
+    }
+    if reach.iter().any(|c| d.contains(c)) {
+        return true;
+    }
+    // one peering link between the two up-/down-trees (non-core ends)
+    t.links.iter().filter(|l| l.up && l.role == ScionLinkType::Peer).any(|l| (u.contains(&l.a) && d.contains(&l.b)) || (u.contains(&l.b) && d.contains(&l.a)))
+}
+
 fn main() {
     let args = Args::parse();
     quiet_panics();
@@ -462,6 +510,10 @@ fn main() {
                     }
                 };
                 rep.hit_n("offered paths", paths.len() as u64);
+                if paths.is_empty() && joinable(spec, a.ia, b.ia) {
+                    rep.spec_fail("C01:joinable-not-offered", &format!("{} -> {} can be joined (valley-free search over the topology) but no path is offered", a.ia, b.ia), json!({"topology": format!("{spec:?}")}));
+                }
+                rep.hit(if paths.is_empty() { "pair without path" } else { "pair with paths" });
                 let take = if ti == 0 { paths.len() } else { paths.len().min(6) };
                 for p in paths.into_iter().take(take) {
                     let ScionDpPathView::Standard(v) = p.dp_path() else { continue };
